@@ -5,6 +5,16 @@ from .c05 import rand_tree
 from .c09 import classify_tree
 
 
+def canonical_tree(rng, depth):
+    """no explicit defaults, no empty sub-fibers (irregular trees are C09's subject)"""
+    def prune(p):
+        if p["k"] == "L":
+            return p
+        e = [[c, prune(q)] for c, q in p["e"]]
+        return {"k": "F", "e": [[c, q] for c, q in e if q["k"] == "L" or q["e"]]}
+    return prune(rand_tree(rng, 4, depth, pz=0.0, pabs=0.3))
+
+
 def run(ctx):
     rng = ctx.rng
     cfg = tlc.write_cfg("MC_Attrs_run.cfg", "INIT Init\nNEXT Next\nINVARIANT DesignOK\nCHECK_DEADLOCK FALSE\n")
@@ -14,16 +24,9 @@ def run(ctx):
     n = 400 if ctx.quick else 6000
     for _ in range(n):
         depth = rng.choice([2, 3])
-        t = rand_tree(rng, 4, depth, pz=0.0, pabs=0.3)     # canonical trees (irregular ones are C09's subject)
-        t["e"] = [x for x in t["e"] if x[1]["k"] == "L" or x[1]["e"]]
-        if depth == 3:
-            for x in t["e"]:
-                x[1]["e"] = [y for y in x[1]["e"] if y[1]["e"]]
-            t["e"] = [x for x in t["e"] if x[1]["e"]]
+        t = canonical_tree(rng, depth)
         base = {"kind": "transform", "tree": t, "depth": depth, "shape": [rng.randint(4, 6) for _ in range(depth)], "auth": rng.choice([1, 1, 0]),
                 "dflt": rng.choice([0, 0, 7]), "fmts": [rng.choice(["C", "U"]) for _ in range(depth)], "mutable": rng.choice([0, 1])}
-        if base["dflt"]:
-            base["tree"] = rand_tree(rng, 4, depth, pz=0.0, pabs=0.3)
         d = rng.randint(0, depth - 2)
         sd = rng.randint(0, depth - 1)
         cases.append(dict(base, op="splitswizzle", d=sd, step=rng.randint(1, 3), guide=list(rng.choice(list(itertools.permutations(range(1, depth + 2)))))))
